@@ -78,6 +78,9 @@ def search(S):
                 continue
             lib = ctypes.CDLL(so)
             for f in eqs.values():
+                if not hasattr(lib, f.name()):
+                    S.check("%s.%s" % (sname, f.name()), "missing_symbol", {"set": sname, "file": stem}, False, f.name(), None, "function of the equation set is not in the compiled C file (dropped or renamed)")
+                    continue
                 trials = max(2, min(12, S.budget // 40))
                 for t in range(trials):
                     scale = [1.0, 1e-3, 10.0, 0.0, 1e-6, 3.0][t % 6]
@@ -106,4 +109,4 @@ def search_and_clean(S):
             pass
 
 
-H.run(search_and_clean, "every function of every shipped equation set (estimator mrp+sim, rdd2, rdd2_loglinear, bezier, mr_ref_traj): parsed C vs instruction list; option combinations (quick: default + each single flip; thorough: all 2^k); gcc -Wall -Werror build; ctypes vs Function evaluation bit-for-bit on random / tiny / zero / non-finite inputs")
+H.run(search_and_clean, "every function of every shipped equation set (estimator mrp+sim through algorithms.generate_code and through the generic cyecca.codegen.generate_code, rdd2, rdd2_loglinear, bezier, mr_ref_traj): parsed C vs instruction list; option combinations (quick: default + each single flip; thorough: all 2^k); gcc -Wall -Werror build; ctypes vs Function evaluation bit-for-bit on random / tiny / zero / non-finite inputs")
